@@ -23,3 +23,65 @@ getCoverage = FunctionSpec(
 )
 
 SPECS = [getCoverage]
+
+
+# ------------------------------------------------------------------ AlignmentComparison.create (the four counts partition the rows)
+RC = OBJ('AlignmentRowComparison')
+CMP = OBJ('AlignmentComparison', '_NullAlignmentComparison')
+
+
+def _enum(e, name):
+    ci = e.repo.cls('AlignmentRowComparisonResultType')
+    return z3.IntVal(list(ci.class_attrs).index(name))
+
+
+def _create_requires(C):
+    R = C.rows
+    k = z3.Int('k')
+    both = _enum(C._e, 'BOTH')
+    return [('only_rows_present_in_both_sets_have_a_positive_identity',
+             forall(k, z3.Implies(z3.And(rng(0, k, R.len), R[k].type != both), R[k].identity == 0), [R.raw(k).t])),
+            ('identity_is_never_negative', forall(k, z3.Implies(rng(0, k, R.len), R[k].identity >= 0), [R.raw(k).t]))]
+
+
+def _create_ensures(C, res):
+    e = C._e
+    R = C.rows
+    n = R.len
+    total = res.overlapping + res.nonOverlapping + res.firstOnly + res.secondOnly
+    if not C.proving:
+        # the conclusion of the induction whose base and step are the obligations below (induction schema applied at the meta level)
+        return [('the_four_counts_add_up_to_the_number_of_rows', total == n),
+                ('counts_are_not_negative', z3.And(res.overlapping >= 0, res.nonOverlapping >= 0, res.firstOnly >= 0, res.secondOnly >= 0))]
+    if not (C.has('F') and C.F.has('overlappingRows')):
+        return [('no_rows_gives_the_null_comparison', z3.And(n == 0, total == 0))]
+    flt = C.note('filter_log')[-1]
+    cnts = C.note('count_log')
+    both, first, second = _enum(e, 'BOTH'), _enum(e, 'FIRST_ONLY'), _enum(e, 'SECOND_ONLY')
+    T = z3.Int('ccT')
+    row = R[T - R.off]
+    k_rel = T - R.off                                  # the comprehension's condition is indexed relatively, the counts absolutely
+    c0 = flt['cond'](k_rel)
+    c1, c2, c3 = (c['cond'](T) for c in cnts[:3])
+    b2i = lambda b: z3.If(b, 1, 0)
+    inside = z3.And(R.off <= T, T < R.off + n)
+    return [('classes_are_those_of_the_statement', z3.ForAll([T], z3.Implies(inside, z3.And(
+                c0 == (row.identity > 0), c1 == z3.And(row.type == both, z3.Not(row.identity > 0)), c2 == (row.type == first), c3 == (row.type == second))))),
+            ('induction_step_every_row_is_counted_in_exactly_one_class', z3.ForAll([T], z3.Implies(inside, b2i(c0) + b2i(c1) + b2i(c2) + b2i(c3) == 1))),
+            ('induction_base_and_wiring_counts_are_the_four_class_counts', z3.And(
+                res.overlapping == C.F.overlappingRows.len,
+                res.nonOverlapping == cnts[0]['Cf'](R.off + n) - cnts[0]['Cf'](R.off),
+                res.firstOnly == cnts[1]['Cf'](R.off + n) - cnts[1]['Cf'](R.off),
+                res.secondOnly == cnts[2]['Cf'](R.off + n) - cnts[2]['Cf'](R.off))),
+            ('rows_are_kept', same_list(res.rows, R))]
+
+
+from specs.common import same_list
+comparison_create = FunctionSpec(
+    file=F, qualname='AlignmentComparison.create', params=dict(rows=LIST(RC)), returns=CMP,
+    requires=_create_requires, ensures=_create_ensures, serves=('C19',),
+    note="overlapping + nonOverlapping + firstOnly + secondOnly = number of rows: every row falls in exactly one of the four classes (identity > 0; BOTH without "
+         "overlap; FIRST_ONLY; SECOND_ONLY) - base and step of the induction over the rows are discharged, the induction schema is applied at the meta level; "
+         "needs that rows present in one set only carry identity 0 (established by alignment1Only / alignment2Only)")
+
+SPECS += [comparison_create]
